@@ -1,6 +1,6 @@
 """C11 - everything the serializer writes is lexically valid OFX for its declared type
 (ofxtools/Types.py unconvert family; ET.tostring(method="html") vs ofxtools/utils.py:123-138 tostring_unclosed_elements)."""
-import re, json, decimal, datetime, importlib
+import re, json, decimal, datetime, importlib, warnings
 import xml.etree.ElementTree as ET
 from .. import common as C
 from . import c10 as S
@@ -122,6 +122,25 @@ def all_char_strings(rng, n):
     return out
 
 
+UNITS = ["e\u0301", "a\u0308\u0323", "\u1100\u1161\u11a8", "o\u0302\u0301", "\u00e9", "\ud55c", "\u212b", "\ufb01", "\U0001f600", "\U00010000", "\U000e0041",
+         "&", "<", ">", "\"", "'", "&amp;", "&lt;", "x", "\u0301", "\u200d"]
+
+
+def boundary_strings(rng, ln):
+    """values of exactly ln and ln+1 code points (and of up to 2*ln code points that NFC would shorten to <= ln) built from combining sequences,
+    precomposed / decomposed pairs, compatibility characters, astral characters and characters that need escaping"""
+    out = []
+    for u in UNITS:
+        rep_ = u * (ln + 2)
+        out += [rep_[:ln], rep_[:ln + 1]]
+        if len(u) > 1:
+            out += [u * ln, u * ((ln + len(u)) // len(u)), u * max(1, ln // len(u))]
+    for _ in range(4):
+        mix = "".join(rng.choice(UNITS) for _ in range(ln + 2))
+        out += [mix[:ln], mix[:ln + 1], mix[:max(1, ln - 1)]]
+    return [x for x in out if x]
+
+
 def unconvert_cases(T, rng, K):
     cases = [c for c in S.build_cases(T, rng, max(8, K // 4)) if c[1] == "unconvert"]
     for sc in (None, None, 0, 1, 2, 3, 5, 8):
@@ -143,6 +162,13 @@ def unconvert_cases(T, rng, K):
         e = {"type": "String", "length": ln, "strict": strict, "required": False}
         for s in all_char_strings(rng, K // 2):
             cases.append((e, "unconvert", s))
+    # the limit counts the code points of the value written (no normalisation): length == limit passes, limit + 1 is refused (NagString: kept, warned)
+    for ln, strict in ((1, True), (2, True), (4, True), (12, True), (32, True), (4, False), (22, False)) + ((255, True),) * (1 if K > 200 else 0):
+        for req in (False, True):
+            e = {"type": "String", "length": ln, "strict": strict, "required": req}
+            for s in boundary_strings(rng, ln):
+                cases.append((e, "unconvert", s))
+                cases.append(({"list": e, "required": False}, "unconvert", s))
     return cases
 
 
@@ -215,12 +241,15 @@ def instance_leaves(T, rng, fails, rep, K):
         builds = [
             ("BAL", lambda: M.BAL(name="n", desc="d", baltype="DOLLAR", value=d, dtasof=datetime.datetime(2020, 1, 1, tzinfo=utc))),
             ("LEDGERBAL", lambda: M.LEDGERBAL(balamt=d, dtasof=datetime.datetime(2020, 1, 1, tzinfo=utc))),
-            ("STMTTRN", lambda: M.STMTTRN(trntype="DEBIT", dtposted=datetime.datetime(2020, 1, 1, tzinfo=utc), trnamt=d, fitid="1", name=S.rand_string(rng, 8) or "x")),
+            ("STMTTRN", lambda: M.STMTTRN(trntype="DEBIT", dtposted=datetime.datetime(2020, 1, 1, tzinfo=utc), trnamt=d, fitid=rng.choice(boundary_strings(rng, 255))[:rng.choice([255, 256, 300])] or "1",
+                                          name=rng.choice(boundary_strings(rng, 32)), memo=rng.choice(boundary_strings(rng, 255)))),
         ]
         for cname, build in builds:
             try:
-                inst = build()
-                root = inst.to_etree()
+                with warnings.catch_warnings():
+                    warnings.simplefilter("ignore")
+                    inst = build()
+                    root = inst.to_etree()
             except Exception:
                 rep.count(("inst", cname, str(d)), nontrivial=False, kind="instance:%s:refused" % cname)
                 continue
@@ -238,8 +267,14 @@ def instance_leaves(T, rng, fails, rep, K):
                     b = {"type": "Bool"}
                 elif isinstance(conv, T.DateTime) and not isinstance(conv, T.Time):
                     b = {"type": "DateTime"}
+                elif isinstance(conv, T.String):
+                    b = {"type": "String", "length": conv.length, "strict": conv.strict}
                 if b is not None and len(leaf) == 0 and not lexical_ok(b, leaf.text or ""):
                     key = lex_key(b, d if b["type"] == "Decimal" else None, leaf.text or "")
+                    if b["type"] == "String":
+                        fails.append(C.Failure(key, "%s(...).to_etree(): <%s> carries %d characters %r, the declared limit is %d" % (cname, leaf.tag, len(leaf.text), leaf.text[:60], b["length"]),
+                                               {"kind": "unconvert", "elem": dict(b, required=False), "op": "unconvert", "value": leaf.text, "observed": ["ok", leaf.text, 0]}))
+                        continue
                     fails.append(C.Failure(key, "%s(...%s=%r).to_etree(): <%s>%s is not a valid OFX %s" % (cname, leaf.tag.lower(), d, leaf.tag, leaf.text, b["type"]),
                                            {"kind": "instance", "class": cname, "value": S.jval(d), "leaf": leaf.tag, "text": leaf.text}))
     rep.extra["instance_stream"] = "%d instances written" % n
